@@ -1,7 +1,13 @@
 package rules
 
 import (
+	"fmt"
+	"go/ast"
+	"go/token"
 	"go/types"
+	"strings"
+
+	"golang.org/x/tools/go/ssa"
 
 	"cadcheck/core"
 )
@@ -65,7 +71,8 @@ func pinnedCallCensus(r *core.Run, rule, table, rel string, callees []string, wh
 func c03(r *core.Run) {
 	r.Explanation = "Decided clause (narrow): every checker visitor that forks control flow, moves, invalidates or uses a resource still routes through the linearity mechanisms — pinned census of the call edges into " +
 		"checkConditionalBranches, checkPotentiallyUnevaluated, MergeBranches, checkResourceLoss, leaveValueScope, checkResourceMoveOperation, recordResourceInvalidation, checkResourceUseAfterInvalidation, maybeAddResourceInvalidation and the jump/return tracking (MaybeReturned, MaybeJumped); " +
-		"a visitor that stops calling its mechanism (e.g. a new statement kind that does not merge branch states, or an invalidation that ignores a possible jump) is reported."
+		"a visitor that stops calling its mechanism (e.g. a new statement kind that does not merge branch states, or an invalidation that ignores a possible jump) is reported; " +
+		"(R7) the two single-branch arms of mergeResourceInfos are mirror images under then<->else; (R8) checkResourceLoss returns early only on its reviewed grounds; (R9) every ReturnInfo.Merge* method propagates the jump offsets of each operand."
 	r.NotDecided = "that the checker's accept/reject relation equals a path-sensitive oracle: the dataflow the mechanisms compute is not re-derived here."
 	pinnedCallCensus(r, "R1.census", "c03_linearity_edges", "sema", []string{
 		"checkConditionalBranches", "checkPotentiallyUnevaluated", "MergeBranches", "checkResourceLoss", "leaveValueScope",
@@ -73,13 +80,358 @@ func c03(r *core.Run) {
 		"MaybeReturned", "MaybeJumped", "AddInvalidation", "RemoveTemporaryMoveInvalidation", "checkResourceFieldNesting",
 	}, "a linearity violation on that construct would no longer be detected by the checker")
 	r.Floor("R1.census", 50)
+	c03Structure(r)
 }
 
 func c07(r *core.Run) {
 	r.Explanation = "Decided clause: purity observation points — every checker visitor of an impure construct still reports it to the purity mechanism: pinned census of the call edges into ObserveImpureOperation, enforceViewAssignment, EnforcePurity and InNewPurityScope " +
-		"(assignment, swap, destroy, remove, invocation of non-view functions, conditions and view function bodies)."
+		"(assignment, swap, destroy, remove, invocation of non-view functions, conditions and view function bodies); " +
+		"(R2) the observation dominates the operation it guards: EnforcePurity before checkInvocation, enforceViewAssignment before recordResourceInvalidation."
 	r.NotDecided = "the alias/reference reasoning inside enforceViewAssignment; purity of built-in functions' native implementations; observable effects through references at run time."
 	pinnedCallCensus(r, "R1.census", "c07_purity_edges", "sema", []string{"ObserveImpureOperation", "enforceViewAssignment", "EnforcePurity", "InNewPurityScope", "CurrentPurityScope", "PushNewPurityScope", "PopPurityScope"},
 		"an impure operation in a view context would no longer be reported")
 	r.Floor("R1.census", 10)
+	c07Order(r)
+}
+
+// c03Structure: R7–R9.
+func c03Structure(r *core.Run) {
+	w := r.W
+	// R7 mirror symmetry of mergeResourceInfos: the arm for "only the then branch invalidated" and the arm for "only the
+	// else branch invalidated" are mirror images under then<->else (the else side is optional, so the then arm may add nil
+	// guards on elseReturnInfo). A flag that differs between the two arms treats the same situation differently
+	// depending on which branch it occurs in.
+	if d, p := w.Decl(w.FuncObj("sema", "", "mergeResourceInfos")); d == nil {
+		r.Undecided("R7.mirror", "sema.mergeResourceInfos", "does not resolve")
+	} else {
+		info := p.TypesInfo
+		// roles of parameters and of locals initialised from them
+		role := map[types.Object]string{}
+		var params []*types.Var
+		for _, f := range d.Type.Params.List {
+			for _, nm := range f.Names {
+				if v, ok := info.Defs[nm].(*types.Var); ok {
+					params = append(params, v)
+				}
+			}
+		}
+		if len(params) == 4 {
+			role[params[0]], role[params[1]], role[params[2]], role[params[3]] = "A.info", "A.ret", "B.info", "B.ret"
+		}
+		ast.Inspect(d.Body, func(n ast.Node) bool {
+			as, ok := n.(*ast.AssignStmt)
+			if !ok || len(as.Lhs) != 1 || len(as.Rhs) != 1 {
+				return true
+			}
+			id, ok := as.Lhs[0].(*ast.Ident)
+			if !ok {
+				return true
+			}
+			obj := info.Defs[id]
+			if obj == nil {
+				return true
+			}
+			for _, rv := range core.RootVars(as.Rhs[0], info) {
+				if ro, ok := role[rv]; ok && role[obj] == "" {
+					role[obj] = ro[:2] + "inv"
+				}
+			}
+			return true
+		})
+		// the if-chain: find arms whose condition is `X != nil` for a single role-bearing local
+		arms := map[string]*ast.BlockStmt{}
+		ast.Inspect(d.Body, func(n ast.Node) bool {
+			ifs, ok := n.(*ast.IfStmt)
+			if !ok {
+				return true
+			}
+			be, ok := ifs.Cond.(*ast.BinaryExpr)
+			if !ok || be.Op != token.NEQ {
+				return true
+			}
+			id, ok := be.X.(*ast.Ident)
+			if !ok {
+				return true
+			}
+			if ro := role[info.Uses[id]]; ro == "A.inv" || ro == "B.inv" {
+				if _, dup := arms[ro]; !dup {
+					arms[ro] = ifs.Body
+				}
+			}
+			return true
+		})
+		render := func(b *ast.BlockStmt, self string) string {
+			other := "B"
+			if self == "B" {
+				other = "A"
+			}
+			var sb strings.Builder
+			var walk func(n ast.Node)
+			tok := func(s string) { sb.WriteString(s); sb.WriteString(" ") }
+			walk = func(n ast.Node) {
+				switch x := n.(type) {
+				case nil:
+				case *ast.BlockStmt:
+					tok("{")
+					for _, st := range x.List {
+						walk(st)
+					}
+					tok("}")
+				case *ast.IfStmt:
+					tok("if")
+					walk(x.Cond)
+					walk(x.Body)
+					if x.Else != nil {
+						tok("else")
+						walk(x.Else)
+					}
+				case *ast.AssignStmt:
+					for _, l := range x.Lhs {
+						walk(l)
+					}
+					tok(x.Tok.String())
+					for _, rr := range x.Rhs {
+						walk(rr)
+					}
+					tok(";")
+				case *ast.ExprStmt:
+					walk(x.X)
+					tok(";")
+				case *ast.BinaryExpr:
+					// drop nil guards on the optional side: `O.ret != nil && E` -> E ; `O.ret == nil || E` -> E
+					if (x.Op == token.LAND || x.Op == token.LOR) && isNilTestOf(x.X, info, role, "ret") {
+						walk(x.Y)
+						return
+					}
+					tok("(")
+					walk(x.X)
+					tok(x.Op.String())
+					walk(x.Y)
+					tok(")")
+				case *ast.UnaryExpr:
+					tok(x.Op.String())
+					walk(x.X)
+				case *ast.ParenExpr:
+					walk(x.X)
+				case *ast.SelectorExpr:
+					walk(x.X)
+					tok("." + x.Sel.Name)
+				case *ast.CallExpr:
+					walk(x.Fun)
+					tok("(")
+					for _, a := range x.Args {
+						walk(a)
+						tok(",")
+					}
+					tok(")")
+				case *ast.CompositeLit:
+					tok(types.ExprString(x.Type))
+					tok("{")
+					for _, e := range x.Elts {
+						walk(e)
+						tok(",")
+					}
+					tok("}")
+				case *ast.KeyValueExpr:
+					walk(x.Key)
+					tok(":")
+					walk(x.Value)
+				case *ast.Ident:
+					if ro, ok := role[info.Uses[x]]; ok {
+						side := "self"
+						if ro[:1] == other {
+							side = "other"
+						}
+						tok(side + ro[1:])
+					} else {
+						tok(x.Name)
+					}
+				case *ast.BasicLit:
+					tok(x.Value)
+				default:
+					tok(fmt.Sprintf("%T", n))
+				}
+			}
+			walk(b)
+			return sb.String()
+		}
+		if arms["A.inv"] == nil || arms["B.inv"] == nil {
+			r.Undecided("R7.mirror", "sema.mergeResourceInfos", "the single-branch arms do not resolve")
+		} else {
+			a, b := render(arms["A.inv"], "A"), render(arms["B.inv"], "B")
+			why := ""
+			if a != b {
+				ta, tb := strings.Fields(a), strings.Fields(b)
+				i := 0
+				for i < len(ta) && i < len(tb) && ta[i] == tb[i] {
+					i++
+				}
+				lo, hiA, hiB := i-4, i+6, i+6
+				if lo < 0 {
+					lo = 0
+				}
+				if hiA > len(ta) {
+					hiA = len(ta)
+				}
+				if hiB > len(tb) {
+					hiB = len(tb)
+				}
+				why = "the arm for an invalidation only in the then branch and the arm for one only in the else branch are not mirror images: then-arm `… " + strings.Join(ta[lo:hiA], " ") + " …` vs else-arm `… " + strings.Join(tb[lo:hiB], " ") + " …`"
+			}
+			r.Check(a == b, "R7.mirror", "sema.mergeResourceInfos: single-branch arms are mirror images", arms["B.inv"].Pos(), "then<->else symmetric (nil guards of the optional else side aside)", why)
+		}
+	}
+	r.Floor("R7.mirror", 1)
+
+	// R8 skip grounds of the scope-exit loss check: checkResourceLoss may return before examining the variables only on
+	// the reviewed grounds (every early return keeps all conditions of a reviewed one)
+	if fn := mustFn(r, "R8.skips", "sema", "Checker", "checkResourceLoss"); fn != nil {
+		pg, complete := core.PathGrounds(fn, 64)
+		if !complete {
+			r.Undecided("R8.skips", core.SSAKey(fn), "too many paths to enumerate")
+		}
+		got := map[string][]string{core.SSAKey(fn): pg}
+		if genMode() {
+			genJSON(r, "c03_skip_grounds", got)
+		} else {
+			var pinned map[string][]string
+			if r.Table("c03_skip_grounds", &pinned) {
+				for _, k := range sortedKeys(pinned) {
+					for _, c := range got[k] {
+						known := false
+						for _, pg := range pinned[k] {
+							if core.GroundCovers(c, pg) {
+								known = true
+							}
+						}
+						r.Check(known, "R8.skips", k+": return under "+c, fn.Pos(), "a reviewed ground for leaving the loss check",
+							"the scope-exit loss check returns early on a ground that keeps the conditions of none of the reviewed ones: resources alive on some path are no longer reported as lost")
+					}
+				}
+			}
+		}
+	}
+	r.Floor("R8.skips", 2)
+
+	// R9 sibling merges of ReturnInfo propagate jump offsets: every Merge* method hands each ReturnInfo operand to
+	// addJumpOffsetsFrom on every path (maybeAddResourceInvalidation and checkResourceLoss consult these offsets)
+	if ri := w.Named("sema", "ReturnInfo"); ri == nil {
+		r.Undecided("R9.merges", "sema.ReturnInfo", "does not resolve")
+	} else {
+		ms := types.NewMethodSet(types.NewPointer(ri))
+		for i := 0; i < ms.Len(); i++ {
+			m, _ := ms.At(i).Obj().(*types.Func)
+			if m == nil || !strings.HasPrefix(m.Name(), "Merge") {
+				continue
+			}
+			fn := w.Prog.FuncValue(m)
+			if fn == nil || len(fn.Blocks) == 0 {
+				continue
+			}
+			for pi, p := range fn.Params {
+				if pi == 0 {
+					continue
+				}
+				if _, tn := core.TypeName(p.Type()); tn != "ReturnInfo" {
+					continue
+				}
+				pp := p
+				passes := func(in ssa.Instruction) bool {
+					c, ok := in.(ssa.CallInstruction)
+					if !ok {
+						return false
+					}
+					o := core.Callee(c)
+					if o == nil || o.Name() != "addJumpOffsetsFrom" {
+						return false
+					}
+					for _, a := range c.Common().Args {
+						if core.IsParamValue(a, pp) {
+							return true
+						}
+					}
+					return false
+				}
+				ok := true
+				for _, ret := range core.Returns(fn) {
+					if !core.MustPass(ret, passes) {
+						ok = false
+					}
+				}
+				r.Check(ok, "R9.merges", core.SSAKey(fn)+": jump offsets of operand #"+itoa(pi)+" propagated", fn.Pos(), "addJumpOffsetsFrom(operand) on every path",
+					"this merge drops the jump offsets recorded in its operand while its sibling merges propagate them: a break/continue inside the merged code (e.g. the else block of a guard statement) is forgotten, and a resource that is alive at the jump is not reported as lost")
+			}
+		}
+	}
+	r.Floor("R9.merges", 3)
+}
+
+func isNilTestOf(e ast.Expr, info *types.Info, role map[types.Object]string, suffix string) bool {
+	be, ok := e.(*ast.BinaryExpr)
+	if !ok || (be.Op != token.NEQ && be.Op != token.EQL) {
+		return false
+	}
+	id, ok := be.X.(*ast.Ident)
+	if !ok {
+		return false
+	}
+	n, ok := be.Y.(*ast.Ident)
+	if !ok || n.Name != "nil" {
+		return false
+	}
+	ro, ok := role[info.Uses[id]]
+	return ok && strings.HasSuffix(ro, suffix)
+}
+
+// c07Order: R2 — the purity observation precedes what it guards: in each visitor the observation call dominates the
+// call that carries the operation out (the check of the invocation, the recording of the resource invalidation).
+func c07Order(r *core.Run) {
+	type pair struct{ fn, observe, anchor string }
+	for _, x := range []pair{
+		{"checkInvocationExpression", "EnforcePurity", "checkInvocation"},
+		{"checkAssignment", "enforceViewAssignment", "recordResourceInvalidation"},
+	} {
+		fn := mustFn(r, "R2.order", "sema", "Checker", x.fn)
+		if fn == nil {
+			continue
+		}
+		var obs []ssa.CallInstruction
+		var anchors []ssa.Instruction
+		named := func(nm string) func(*types.Func) bool {
+			return func(o *types.Func) bool { return o != nil && o.Name() == nm }
+		}
+		core.Instrs(fn, false, func(in ssa.Instruction) {
+			switch y := in.(type) {
+			case ssa.CallInstruction:
+				if o := core.Callee(y); o != nil {
+					switch o.Name() {
+					case x.observe:
+						obs = append(obs, y)
+					case x.anchor:
+						anchors = append(anchors, in)
+					}
+				}
+			case *ssa.MakeClosure:
+				// a function literal that carries the operation out: it is built after the observation
+				if lit, ok := y.Fn.(*ssa.Function); ok && len(core.CallsTo(lit, true, named(x.anchor))) > 0 {
+					anchors = append(anchors, in)
+				}
+			}
+		})
+		if len(obs) == 0 || len(anchors) == 0 {
+			r.Undecided("R2.order", "sema.(Checker)."+x.fn, "observation or anchor call not found directly in the function")
+			continue
+		}
+		for i, a := range anchors {
+			dom := false
+			for _, o := range obs {
+				if core.Dominates(o, a) {
+					dom = true
+				}
+			}
+			r.Check(dom, "R2.order", "sema.(Checker)."+x.fn+": "+x.observe+" before "+x.anchor+" #"+itoa(i+1), a.Pos(), "the purity observation dominates the operation",
+				"the operation is carried out on a path that has not passed the purity observation (the observation became conditional or moved behind an early exit): an impure operation in a view context is not reported on that path")
+		}
+	}
+	r.Floor("R2.order", 2)
 }
